@@ -13,10 +13,16 @@ struct Case {
     body: Core,
     outer: Core,
     with_cols: bool,
+    /// the definition is written `SELECT * FROM t [WHERE …]` (output columns keep the base names)
+    star: Option<usize>,
 }
 
 fn forms(c: &Case, db2: &DbDef) -> (String, String, String, String) {
-    let body_sql = c.body.sql(&c.dbd);
+    let mut body_sql = c.body.sql(&c.dbd);
+    if c.star.is_some() {
+        let at = body_sql.find(" FROM ").unwrap();
+        body_sql = format!("SELECT *{}", &body_sql[at..]);
+    }
     let outer_sql = c.outer.sql(db2);
     let create = if c.with_cols {
         let cols: Vec<String> = (0..c.body.select.len()).map(|i| format!("o{}", i)).collect();
@@ -32,10 +38,11 @@ fn forms(c: &Case, db2: &DbDef) -> (String, String, String, String) {
 fn with_v(c: &Case) -> DbDef {
     let tys = c.body.out_tys(&c.dbd);
     let mut d = c.dbd.clone();
-    d.tables.push(TableDef {
-        schema: Schema { table: "v".into(), cols: tys.iter().enumerate().map(|(i, t)| (format!("o{}", i), *t)).collect() },
-        rows: vec![],
-    });
+    let cols = match c.star {
+        Some(t) if !c.with_cols => c.dbd.tables[t].schema.cols.clone(),
+        _ => tys.iter().enumerate().map(|(i, t)| (format!("o{}", i), *t)).collect(),
+    };
+    d.tables.push(TableDef { schema: Schema { table: "v".into(), cols }, rows: vec![] });
     d
 }
 
@@ -124,6 +131,9 @@ fn run_case(c: &mut Case, r: &mut Rng, model: &mut model::Model, rep: &mut Repor
         return;
     }
     let mut feats = vec![];
+    if c.star.is_some() {
+        rep.count("body_select_star");
+    }
     Query::Core(c.body.clone()).features(&mut feats);
     for f in &feats {
         rep.count(&format!("body_{}", f));
@@ -165,6 +175,35 @@ fn run_case(c: &mut Case, r: &mut Rng, model: &mut model::Model, rep: &mut Repor
     check_round(c, &mut db, model, rep, "after_dml", &script);
 }
 
+/// deterministic probes (minimised past failure, fixed b16cfa2c): wildcard definitions in the
+/// three spellings, empty and non-empty, with a second CTE over the first
+fn star_probes(rep: &mut Report) {
+    let mut db = Db::new();
+    db.must("CREATE TABLE t0 (a INTEGER, b VARCHAR(20))");
+    db.must("INSERT INTO t0 VALUES (1, 'a'), (-2, 'ab'), (NULL, NULL)");
+    db.must("CREATE VIEW sv AS SELECT * FROM t0 WHERE a < 4");
+    let spell = |w: &str| {
+        vec![
+            format!("SELECT sv.a, sv.b FROM sv {}", w),
+            format!("WITH sv AS (SELECT * FROM t0 WHERE a < 4) SELECT sv.a, sv.b FROM sv {}", w),
+            format!("SELECT sv.a, sv.b FROM (SELECT * FROM t0 WHERE a < 4) AS sv {}", w),
+            format!("WITH sv AS (SELECT t0.* FROM t0 WHERE a < 4) SELECT sv.a, sv.b FROM sv {}", w),
+            format!("WITH u AS (SELECT * FROM t0), sv AS (SELECT * FROM u WHERE a < 4) SELECT sv.a, sv.b FROM sv {}", w),
+        ]
+    };
+    for w in ["", "WHERE sv.a > 0", "WHERE sv.a > 100"] {
+        let outs: Vec<(String, Out)> = spell(w).into_iter().map(|q| { let o = db.query(&q); (q, o) }).collect();
+        rep.case(&format!("star probe {}", w), true);
+        let first = outs[0].1.rows().map(|r| canon::bag_vec(r));
+        for (q, o) in &outs {
+            if first.is_none() || o.rows().map(|r| canon::bag_vec(r)) != first {
+                rep.fail(FailKind::Oracle, None, "wildcard definition: view / CTE / derived-table spellings differ", &format!("{}\n{}\n => {}\nview form => {}", db.log.join(";\n"), q, o.brief(), outs[0].1.brief()));
+                break;
+            }
+        }
+    }
+}
+
 fn main() {
     engine::silence_panics();
     let args = Args::parse("C32");
@@ -175,14 +214,26 @@ fn main() {
          distinct by hash of (database, definition, outer query)",
     );
     let mut model = args.model();
+    star_probes(&mut rep);
     let mut rng = Rng::new(args.seed);
     let n = args.n(500, 15000);
     for i in 0..n {
         let mut r = rng.fork();
         let dbd = gen_db(&mut r, 3, if args.quick() { 8 } else { 20 });
         let g = QGen { db: &dbd, subqueries: false, force_from: None };
-        let body = g.gen_core(&mut r, false);
-        let mut c = Case { dbd: dbd.clone(), body, outer: Core { from: From::Table(3), where_: None, group: None, select: vec![], distinct: false, order_by: vec![], limit: None, offset: 0 }, with_cols: r.chance(1, 3) };
+        let mut body = g.gen_core(&mut r, false);
+        let mut star = None;
+        if r.chance(1, 5) {
+            // wildcard definition over one base table, optional WHERE
+            let t = r.below(dbd.tables.len() as u64) as usize;
+            let sg = QGen { db: &dbd, subqueries: false, force_from: Some(From::Table(t)) };
+            body = sg.gen_core(&mut r, false);
+            body.group = None;
+            body.distinct = false;
+            body.select = (0..dbd.tables[t].schema.cols.len()).map(E::Col).collect();
+            star = Some(t);
+        }
+        let mut c = Case { dbd: dbd.clone(), body, star, outer: Core { from: From::Table(3), where_: None, group: None, select: vec![], distinct: false, order_by: vec![], limit: None, offset: 0 }, with_cols: star.is_none() && r.chance(1, 3) };
         let db2 = with_v(&c);
         let og = QGen { db: &db2, subqueries: false, force_from: Some(From::Table(3)) };
         c.outer = og.gen_core(&mut r, true);
